@@ -55,3 +55,50 @@ pub fn build(prop: &str, tier: Tier) -> Option<CheckDef> {
         _ => None,
     }
 }
+
+/// Surface audit: every `pub fn` of the crate (outside #[cfg(test)] modules) whose name does not
+/// occur as a call in the harness sources is reported, so that coverage cannot erode silently.
+pub fn surface_audit() -> serde_json::Value {
+    let repo = crate::skeleton::repo_dir();
+    let hsrc = crate::framework::verif_dir().join("mc").join("mc").join("src");
+    let mut harness = String::new();
+    fn slurp(dir: &std::path::Path, out: &mut String) {
+        if let Ok(rd) = std::fs::read_dir(dir) {
+            for e in rd.flatten() {
+                let p = e.path();
+                if p.is_dir() {
+                    slurp(&p, out);
+                } else if p.extension().map(|x| x == "rs").unwrap_or(false) {
+                    out.push_str(&std::fs::read_to_string(&p).unwrap_or_default());
+                }
+            }
+        }
+    }
+    slurp(&hsrc, &mut harness);
+    let mut total = 0;
+    let mut uncovered: Vec<String> = Vec::new();
+    if let Ok(rd) = std::fs::read_dir(format!("{repo}/src")) {
+        let mut files: Vec<_> = rd.flatten().map(|e| e.path()).collect();
+        files.sort();
+        for f in files {
+            let txt = std::fs::read_to_string(&f).unwrap_or_default();
+            // everything after the first #[cfg(test)] at column 0 is test code
+            let body = match txt.find("\n#[cfg(test)]") {
+                Some(p) => &txt[..p],
+                None => &txt[..],
+            };
+            for line in body.lines() {
+                let l = line.trim_start();
+                if let Some(rest) = l.strip_prefix("pub fn ") {
+                    let name: String = rest.chars().take_while(|c| c.is_alphanumeric() || *c == '_').collect();
+                    total += 1;
+                    let used = harness.contains(&format!(".{name}(")) || harness.contains(&format!("::{name}(")) || harness.contains(&format!("::{name}::<")) || harness.contains(&format!("{name},")) || harness.contains(&format!(" {name})")) || harness.contains(&format!("({name})"));
+                    if !used {
+                        uncovered.push(format!("{}::{}", f.file_stem().unwrap().to_string_lossy(), name));
+                    }
+                }
+            }
+        }
+    }
+    serde_json::json!({"pub_fns": total, "uncovered_pub_fns": uncovered})
+}
